@@ -1557,10 +1557,18 @@ write_sub_module(ostream &out, Object *obj) {
     class_ptr = "&Dtool_" + class_name;
 
   } else {
-    // Unwrap typedefs.
+    // Unwrap typedefs.  (The C idiom "typedef struct X { ... } X;" gives the
+    // typedef and the struct one name, and so one record that wraps itself;
+    // don't go around that forever.)
     TypeIndex wrapped = obj->_itype._wrapped_type;
-    while (interrogate_type_is_typedef(wrapped)) {
+    for (int depth = 0;
+         depth < 100 && interrogate_type_is_typedef(wrapped);
+         ++depth) {
       wrapped = interrogate_type_wrapped_type(wrapped);
+    }
+    if (interrogate_type_is_typedef(wrapped)) {
+      // There is no class at the end of it that we could give another name.
+      return;
     }
 
     InterrogateDatabase *idb = InterrogateDatabase::get_ptr();
